@@ -211,7 +211,38 @@ impl Scen {
                 return Act::CloseBalance { u, b };
             }
         }
-        match rng.below(20) {
+        // state-directed choice of the bank (three times out of four): withdraw where the user holds a deposit, repay where
+        // it owes, borrow where it holds no deposit — otherwise most operations die on the one-side-per-bank rule and the
+        // deep paths (accepted borrows, repayments, full closes) are starved
+        let side = |u: usize, want_asset: Option<bool>| -> Vec<usize> {
+            let a = self.w.marginfi_account(&self.users[u].acct);
+            (0..self.banks.len())
+                .filter(|&bi| {
+                    let bal = a.lending_account.get_balance(&self.banks[bi].bank);
+                    match want_asset {
+                        Some(true) => bal.map(|x| fx(x.asset_shares) >= ONE).unwrap_or(false),
+                        Some(false) => bal.map(|x| fx(x.liability_shares) >= ONE).unwrap_or(false),
+                        None => bal.map(|x| fx(x.asset_shares) < ONE).unwrap_or(true),
+                    }
+                })
+                .collect()
+        };
+        let kind = rng.below(20);
+        let directed = rng.chance(3, 4);
+        let (b, amt) = if directed && (8..=16).contains(&kind) {
+            let cands = side(u, if kind <= 10 { Some(true) } else if kind <= 13 { None } else { Some(false) });
+            if cands.is_empty() { (b, amt) } else {
+                let b2 = *rng.pick(&cands);
+                // amounts relative to the position / the bank where that makes sense
+                let amt2 = match rng.below(4) {
+                    0 => self.position_amount(u, b2).saturating_add(rng.below(3)).saturating_sub(1),
+                    1 => (self.position_amount(u, b2) / (1 + rng.below(10))).max(1),
+                    _ => amt,
+                };
+                (b2, if kind <= 13 && kind >= 11 { amt } else { amt2 })
+            }
+        } else { (b, amt) };
+        match kind {
             0..=2 => Act::Clock(*rng.pick(&[1i64, 5, 60, 3600, 86400, 604800, 31_536_000])),
             3..=7 => Act::Deposit { u, b, amt, upto: rng.chance(1, 4) },
             8..=10 => Act::Withdraw { u, b, amt, all: rng.chance(1, 5) },
